@@ -1201,10 +1201,43 @@ fn function_binder_cases() -> Vec<HCase> {
     v
 }
 
+/// Hand-written pairs: a local binder of quoted code (in the macro body / at the use site) has the name of
+/// a function that an import makes visible (`use m::*`, `use m::f`, a sibling of the current module is not
+/// modelled); the binder is referenced from a nested quotation that passes through a macro-stage helper,
+/// or from the quoted argument of the macro. The local binder must win (it does on the unchanged tree).
+fn import_collision_cases() -> Vec<HCase> {
+    let mut v = vec![];
+    let imports: [(&str, &str); 3] = [
+        ("use-wildcard", "mod util {\n    pub fn depth(v) { v * 100.0 }\n}\nuse util::*\n"),
+        ("use-single", "mod util {\n    pub fn depth(v) { v * 100.0 }\n}\nuse util::depth\n"),
+        ("use-multi", "mod util {\n    pub fn depth(v) { v * 100.0 }\n    pub fn other(v) { v }\n}\nuse util::{depth, other}\n"),
+    ];
+    let sites: [(&str, &str, f64); 3] = [
+        ("macro-body-nested-quotation", "#stage(macro)\nfn id(c){ c }\nfn m(x){\n  `{ let B = |v| { v * 0.5 }\n     $(id(`{ B($x) })) }\n}\n#stage(main)\nfn dsp(){\n  m!(`3.0)\n}\n", 1.5),
+        ("use-site-quoted-argument", "#stage(macro)\nfn m(x){\n  `{ $x + 1.0 }\n}\n#stage(main)\nfn dsp(){\n  let B = |v| { v * 0.5 }\n  m!(`B(3.0))\n}\n", 2.5),
+        ("macro-body-doubly-nested", "#stage(macro)\nfn id(c){ c }\nfn m(x){\n  `{ let B = |v| { v * 0.5 }\n     $(id(`{ $(id(`{ B($x) })) + 0.0 })) }\n}\n#stage(main)\nfn dsp(){\n  m!(`3.0)\n}\n", 1.5),
+    ];
+    for (itag, prelude) in imports {
+        for (stag, body, expected) in sites {
+            let text = |b: &str| format!("{prelude}{}", body.replace('B', b));
+            v.push(HCase {
+                colliding: text("depth"),
+                renamed: text("zq_d"),
+                expected,
+                n: 2,
+                class: format!("let-bound-function/{stag}/import-captures-local/{itag}"),
+                tags: Tags { form: "let-bound-function".into(), position: stag.into(), direction: "import-captures-local".into(), name_source: "imported".into(), name: "depth".into(), user_entity: itag.into(), ..Default::default() },
+            });
+        }
+    }
+    v
+}
+
 pub fn run(args: &Args, out: &mut Out) {
     let q = (args.q(Q_TUPLE), args.q(Q_IF));
     let all = combos(q.0);
-    let extra = function_binder_cases();
+    let mut extra = function_binder_cases();
+    extra.extend(import_collision_cases());
     let total = all.len() + args.cases(300, 10_000);
     out.max_samples = 2;
     drive(args, out, total + extra.len(), |idx, rng| if idx >= total { extra.get(idx - total).cloned() } else { Some(generate_case(idx, rng, &all, q)) }, exec);
